@@ -152,6 +152,31 @@ def search(ctx):
                 continue
             if not same(got['ok'], cur['ok']):
                 ctx.violation('pipeline.sequencing', f'pipeline result differs from applying {leaves} one after another', input=req)
+                continue
+            if mode == 'transform':
+                # the same pipeline object used a second time, and used twice inside one composition
+                from props.passcommon import mk_tr
+                from common import circ_from_json, circ_to_json
+                from cirbo.core.circuit.transformer import TransformerComposition
+                try:
+                    t = mk_tr(spec)
+                    t.transform(circ_from_json(j))
+                    second = circ_to_json(t.transform(circ_from_json(j)))
+                    twice = circ_to_json(TransformerComposition([t, t]).transform(circ_from_json(j)))
+                except Exception as e:  # noqa: BLE001
+                    ctx.violation('pipeline.reuse_raises', f'a pipeline object used again raised {type(e).__name__}', input=req)
+                    continue
+                cur2 = cur
+                for lf in leaves:
+                    cur2 = py_passes({'c': cur2['ok'], 'mode': 'transform', 't': lf})
+                    if 'err' in cur2:
+                        break
+                if not same(second, cur['ok']):
+                    ctx.violation('pipeline.second_use', f'the second use of one pipeline object differs from applying {leaves} one after another', input=req)
+                elif 'ok' in cur2 and not same(twice, cur2['ok']):
+                    ctx.violation('pipeline.nested_reuse', 'a pipeline object listed twice in a composition differs from applying its passes twice', input=req)
+                else:
+                    ctx.count('pipeline:object_reused')
         for heavy in (False, True):
             if heavy and len(j['inputs']) > 5:
                 continue
